@@ -25,6 +25,7 @@ def run(ctx, res):
     deletion.scanner_tables(ctx, res, "C12.R1t")
     saturating_amount(ctx, res, "C12.R2")
     amount_from_first_line(ctx, res, "C12.R2b")
+    indent_measure(ctx, res, "C12.R2c")
     deletion.byte0_examined(ctx, res, "C12.R3")
     pair_indices(ctx, res, "C12.R4")
     block_ranges_sorted(ctx, res, "C12.R5")
@@ -84,8 +85,67 @@ def saturating_amount(ctx, res, rule):
                         "underflows (panic / huge value) instead of being zero", loc=T.loc(init)))
     elif init.get("k") == "mcall" and init["name"] == "wrapping_sub":
         res.add(Finding(rule, fn, "amount:" + r, "the dedent amount wraps around when the first body line is indented less than the tag", loc=T.loc(init)))
+    elif init.get("k") == "if" and init.get("els") is not None and T.lit_value(T.peel(init["els"])) == 0 and T.peel(init["then"]).get("k") == "binary" and T.peel(init["then"])["op"] == "-":
+        # if a > b { a - b } else { 0 }: the guarded spelling of saturating_sub
+        c_, t_ = T.peel(init["cond"]), T.peel(init["then"])
+        if c_.get("k") == "binary" and c_["op"] in (">", ">=") and T.render(c_["l"]) == T.render(t_["l"]) and T.render(c_["r"]) == T.render(t_["r"]):
+            res.holds(rule, fn, "amount:" + r[:60], "guarded subtraction")
+        else:
+            res.add(Finding(rule, fn, "amount:" + r[:60], "the dedent amount is a subtraction whose guard does not compare the same operands", loc=T.loc(init)))
     else:
-        res.holds(rule, fn, "amount:" + r, "not a subtraction")
+        res.add(Finding(rule, fn, "amount:" + r[:60], "the dedent amount is `%s`, not (indentation of the first inner line) saturating-minus (indentation of the tag): "
+                        "lines deeper than the first inner line are shifted by a wrong amount" % r[:80], loc=T.loc(init)))
+
+
+def indent_measure(ctx, res, rule):
+    """The indentation of a line is (first non-blank position) - (line start), the first-non-blank scan being seeded at the
+    line start, and the line start being (previous line break) + 1: `find_prev(..).and_then(|p| find_next_char(.., p + 1)
+    .map(|e| e - p - 1)).unwrap_or(0)`.  Decided on the linear form of the value on the path where both scans succeed."""
+    P = ctx.lib
+    b = P.fn("block_indent_remover::get_indent_len", required=False)
+    if b is None:
+        # the measurement was inlined into format: C12.R2b judges its shape there; its arithmetic is the same expression
+        b = P.fn("BlockIndentRemover::format")
+    fn = fshort(b)
+    loc = T.loc(b["tree"])
+    # the expression that calls find_next_char_pos inside a combinator chain on find_prev_line_break_pos
+    cands = [n for n in T.nodes(b["tree"], "mcall") if n["name"] in ("unwrap_or", "map_or", "unwrap_or_default")
+             and any(T.short_path(T.callee(x) or "").endswith("find_next_char_pos") for x in T.nodes(n, "call"))
+             and any(T.short_path(T.callee(x) or "").endswith("find_prev_line_break_pos") for x in T.nodes(n, "call"))]
+    if len(cands) != 1:
+        res.cannot(rule, fn, "indent-measure", "the indentation measurement (prev line break -> first non-blank) was not found as one expression", loc)
+        return
+    I = A.Interp(P)
+    I.lazy_locals = True
+    try:
+        outs = I.explore(lambda J: J.ev(cands[0], {}))
+    except A.Cannot as e:
+        res.cannot(rule, fn, "indent-measure", str(e), loc)
+        return
+    both = [o for o in outs if sum(1 for k, v in o["decisions"].items() if k.startswith("is_some(") and v is True) == 2]
+    ok = len(both) == 1
+    why = "no path on which both scans succeed"
+    if ok:
+        term = A.show(both[0]["value"])
+        lin = linear.linear_of_term(term)
+        atoms = [k for k in (lin or {}) if k != "1"]
+        e_atoms = [k for k in atoms if k.startswith("find_next_char_pos(")]
+        p_atoms = [k for k in atoms if k.startswith("find_prev_line_break_pos(")]
+        ok = lin is not None and len(atoms) == 2 and len(e_atoms) == 1 and len(p_atoms) == 1 and lin.get(e_atoms[0]) == 1 and lin.get(p_atoms[0]) == -1 and lin.get("1", 0) == -1
+        why = "the measured width is `%s`" % term[:160]
+        if ok:
+            # the first-non-blank scan starts at the line start = previous line break + 1
+            seed = "(%s + 1)" % p_atoms[0]
+            ok = (", %s).some" % seed) in e_atoms[0]
+            why = "the first-non-blank scan is not seeded at the line start `%s`: %s" % (seed[:60], e_atoms[0][:120])
+    others = [o for o in outs if o not in both]
+    if ok and not all(isinstance(o["value"], A.Lit) and o["value"].v == 0 for o in others):
+        ok, why = False, "when a scan finds nothing the width is not 0"
+    if ok:
+        res.holds(rule, fn, "indent-measure", "first non-blank - (previous line break + 1), 0 when a scan finds nothing")
+    else:
+        res.add(Finding(rule, fn, "indent-measure", "the indentation of the first inner line is not measured as (first non-blank) - (line start): %s; every inner line "
+                        "is then shifted by a wrong amount" % why, loc=T.loc(cands[0])))
 
 
 def amount_from_first_line(ctx, res, rule):
@@ -157,6 +217,30 @@ def amount_from_first_line(ctx, res, rule):
         if not (calls_ok and re.search(r"\(%s - \w+\)" % re.escape(sn), tr)):
             ok = False
             why.append("the tag indentation is `%s`, not the distance from the seam back to the previous line break" % tr[:100])
+    if ok:
+        # the tag indentation: distance from the previous line break, and 0 when there is none (tag on the first line) - the
+        # function goes on in both cases
+        try:
+            I = A.Interp(P)
+            I.lazy_locals = True
+            outs = I.explore(lambda J: J.ev(ofs_d, {}))
+            for o in outs:
+                found = [v for k, v in o["decisions"].items() if k.startswith("is_some(find_prev_line_break_pos(")]
+                if o["exit"] != "fall":
+                    ok = False
+                    why.append("computing the tag indentation leaves the function (%s) when %s: the block is then not dedented at all" % (o["exit"], "no line break precedes the tag" if found == [False] else "a line break precedes the tag"))
+                elif found == [False] and not (isinstance(o["value"], A.Lit) and o["value"].v == 0):
+                    ok = False
+                    why.append("with no line break before the tag (first line of the file) the tag indentation is `%s`, not 0" % A.show(o["value"])[:60])
+                elif found == [True]:
+                    lin = linear.linear_of_term(A.show(o["value"]))
+                    pterm = [k for k in (lin or {}) if k.startswith("find_prev_line_break_pos(")]
+                    if lin is None or len(pterm) != 1 or lin.get(pterm[0]) != -1 or lin.get(sn) != 1 or lin.get("1", 0) != -1 or len(lin) != 3:
+                        ok = False
+                        why.append("the tag indentation is `%s`, not %s - (previous line break) - 1" % (A.show(o["value"])[:80], sn))
+        except A.Cannot as e:
+            ok = False
+            why.append("tag indentation not interpretable: %s" % e)
     if ok:
         res.holds(rule, fn, "amount-from-first-line", "indent(first inner line) saturating_sub indent(tag)")
     else:
@@ -299,6 +383,14 @@ def pair_indices(ctx, res, rule):
                     break
                 pv = v.items[1]
                 if isinstance(pv, A.Variant) and pv.name == "None":
+                    # completeness: a partner that is kept (off <= p < hi) must keep its pair index
+                    d = o["decisions"]
+                    below = any((k_ == "ord(%s, %s)" % tuple(sorted(["pair.some", off])) and _lt(k_, v_, "pair.some", off)) for k_, v_ in d.items())
+                    above = hi is not None and any((k_ == "ord(%s, %s)" % tuple(sorted(["pair.some", hi])) and _le(k_, v_, hi, "pair.some")) for k_, v_ in d.items())
+                    has_partner = any(k_ == "is_some(pair)" and v_ is True for k_, v_ in d.items()) or any("pair.some" in k_ for k_ in d)
+                    if has_partner and not below and not above:
+                        okk, why = False, "a partner inside the kept slice (%s <= p < %s) loses its pair index (decisions %s)" % (off, hi, {k_: v_ for k_, v_ in d.items() if k_.startswith("ord(")})
+                        break
                     continue
                 if isinstance(pv, A.Variant) and pv.name == "Some":
                     lin = linear.linear_of_term(A.show(pv.args[0]))
